@@ -169,6 +169,10 @@ pub enum IdRef {
   KnownTxIndex(u32, u32),
   /// an id that does not exist
   Missing(u32),
+  /// `<txid of the transaction that carries the envelope>i<index>`: the txid
+  /// does not commit to the witness, so an envelope can name itself, a later
+  /// or an earlier inscription of its own transaction
+  Own(u32),
   #[serde(with = "hexbytes")]
   RawBytes(Vec<u8>),
 }
@@ -433,6 +437,9 @@ pub enum AmountSel {
   Full,
   /// more than the wallet has
   FullPlus(u32),
+  /// exactly what the first (by outpoint) uninscribed wallet output holding
+  /// the rune holds: consumes that input without a remainder
+  FirstHolder,
 }
 
 #[derive(Clone, Debug, PartialEq, Eq, Serialize, Deserialize)]
